@@ -685,6 +685,15 @@ def c09_search(ctx):
         for wi, wf in enumerate(d["Fields"]):
             if wf.get("BitLength", 0) > 53 and "Match" not in wf and wf["FieldType"] in ("NUMBER", "TIME", "DURATION"):
                 msgs += mutate_message(base, d, rng, force=wi)
+        # narrow number fields (1..4 bits): EVERY value from 0 to one past the field's capacity
+        for ni, nf in enumerate(d["Fields"]):
+            if nf["FieldType"] == "NUMBER" and nf.get("BitLength", 99) <= 4 and "Match" not in nf and not nf.get("Signed"):
+                res_ = nf.get("Resolution", 1)
+                res_ = float(res_) if not isinstance(res_, int) else res_
+                for v in range(0, (1 << nf["BitLength"]) + 1):
+                    m2 = copy.deepcopy(base)
+                    m2.fields[ni].value = m2.fields[ni].raw_value = v * res_
+                    msgs.append((f"NUMBER:narrow:{nf['BitLength']}bit:{v}", m2))
         for label, m in msgs:
             w = c09_check(d, m, label, dec, enc)
             if w and w["key"] not in seen:
